@@ -132,8 +132,17 @@ def make_tebd(start_step=0, mps=None, start_time=START):
     chain.add_nn_hamiltonian(site=1, hamiltonian_l=0.4 * M.SX, hamiltonian_r=M.SX)
     if mps is None:
         mps = oq.AugmentedMPS([M.RHO_GEN2, M.RHO_PLUS, M.RHO_GEN2])
+    # control operations at absolute step numbers, before and after every possible split / restart point
+    from mc import refmodel as R
+    cc = oq.ChainControl([2, 2, 2])
+    k1, k2 = R.conj_super(M.generic_unitary(2, 9)), R.conj_super(M.generic_unitary(2, 4))
+    cc.add_single_site_control(k1, site=0, step=1, post=False)
+    cc.add_single_site_control(k2, site=1, step=2, post=True)
+    cc.add_single_site_control(k2, site=2, step=3, post=False)
+    cc.add_single_site_control(k1, site=2, step=4, post=False)
+    cc.add_single_site_control(k2, site=0, step=4, post=True)
     return oq.PtTebd(mps, chain, [chain_pt(), None, None], oq.PtTebdParameters(dt=DT, order=2, epsrel=1e-10),
-                     start_time=start_time, start_step=start_step, dynamics_sites=[0, 1, (0, 1), 2])
+                     start_time=start_time, start_step=start_step, dynamics_sites=[0, 1, (0, 1), 2], chain_control=cc)
 
 
 def observe(kind, obj):
